@@ -173,6 +173,9 @@ def run(ctx):
                                                'xfrm.XfrmUserPolicyInfo', 'xfrm.XfrmUserAcquire'), floor=60)
 
     # ---------------------------------------------------------------- Y3
+    # the entry index the pair encodes: configured, or an independent random draw per entry (shared with C19 B2)
+    from .c19 import entry_index
+    entry_index(ctx, 'Y3')
     pa = ctx.func('ikesacontroller.IkeSaController.process_acquire')
     A = ctx.sval(pa)
     p0, p1 = pa.call_params()[0], pa.call_params()[1]
